@@ -15,9 +15,12 @@ theorem bind_ok {ε α β} {x : Except ε α} {f : α → Except ε β} {b : β}
 
 /-! ## affine algebra -/
 
-theorem pos_remap (sz : AxMap → Int) (g : Geom) (m0 m1 m2 : AxMap) (j : I3) :
-    (g.remap sz m0 m1 m2).pos j = g.pos (remapSrc m0 m1 m2 j) := by
-  simp only [Geom.remap, Geom.pos, remapSrc, V3.add, V3.smul, V3.mk.injEq]
+/-- array side and affine side of an axis map agree -/
+def AxTied (m : AxMap) : Prop := m.afirst = m.first ∧ m.astep = m.step
+
+theorem pos_remap (sz : AxMap → Int) (g : Geom) (m0 m1 m2 : AxMap) (t0 : AxTied m0) (t1 : AxTied m1) (t2 : AxTied m2)
+    (j : I3) : (g.remap sz m0 m1 m2).pos j = g.pos (remapSrc m0 m1 m2 j) := by
+  simp only [Geom.remap, Geom.pos, remapSrc, V3.add, V3.smul, V3.mk.injEq, t0.1, t0.2, t1.1, t1.2, t2.1, t2.2]
   push_cast
   refine ⟨?_, ?_, ?_⟩ <;> ring
 
@@ -156,10 +159,10 @@ theorem sliceIndices_ok {a b c : Option Int} {n f l st : Int} (hn : 0 ≤ n) (h 
        refine ⟨by omega, ?_, ?_⟩ <;> intro hs <;> (repeat' split) <;> omega)
 
 /-- an axis map is well formed: non-zero stride, at least one voxel, and numpy's length is the computed size -/
-def AxGood (m : AxMap) : Prop := m.step ≠ 0 ∧ 1 ≤ m.size ∧ m.alen = m.size
+def AxGood (m : AxMap) : Prop := m.step ≠ 0 ∧ 1 ≤ m.size ∧ m.alen = m.size ∧ AxTied m
 /-- every output index of the axis reads an existing input voxel -/
 def AxInside (m : AxMap) (n : Int) : Prop :=
-  ∀ k, 0 ≤ k → k < m.size → 0 ≤ m.first + m.step * k ∧ m.first + m.step * k < n
+  ∀ k, 0 ≤ k → k < m.size → 0 ≤ m.afirst + m.astep * k ∧ m.afirst + m.astep * k < n
 
 theorem axisOfSlice_some_sound {a b c : Option Int} {n : Int} {m : AxMap} (hn : 0 ≤ n)
     (h : axisOfSlice (some (a, b, c)) n = .ok m) : AxGood m ∧ AxInside m n := by
@@ -176,7 +179,7 @@ theorem axisOfSlice_some_sound {a b c : Option Int} {n : Int} {m : AxMap} (hn : 
   rcases h3 with ⟨hs, hfl, hc⟩ | ⟨hs, hfl, hc⟩
   · obtain ⟨p1, p2, p3, p4⟩ := hpos hs
     have hq : 0 ≤ (l - first - 1) / step := Int.ediv_nonneg (by omega) (by omega)
-    refine ⟨⟨hst, by omega, ?_⟩, ?_⟩
+    refine ⟨⟨hst, by omega, ?_, ⟨rfl, rfl⟩⟩, ?_⟩
     · simp only [sliceLen]
       have : step > 0 := hs
       simp [this, hfl, hc]
@@ -187,7 +190,7 @@ theorem axisOfSlice_some_sound {a b c : Option Int} {n : Int} {m : AxMap} (hn : 
   · obtain ⟨p1, p2, p3, p4⟩ := hneg hs
     have hs2 : 0 < -step := by omega
     have hq : 0 ≤ (first - l - 1) / (-step) := Int.ediv_nonneg (by omega) (by omega)
-    refine ⟨⟨hst, by omega, ?_⟩, ?_⟩
+    refine ⟨⟨hst, by omega, ?_, ⟨rfl, rfl⟩⟩, ?_⟩
     · simp only [sliceLen]
       have h1 : ¬ step > 0 := by omega
       simp [h1, hs, hfl, hc]
@@ -198,10 +201,10 @@ theorem axisOfSlice_some_sound {a b c : Option Int} {n : Int} {m : AxMap} (hn : 
       omega
 
 theorem axisOfSlice_none_sound {n : Int} {m : AxMap} (hn : 0 < n) (h : axisOfSlice none n = .ok m) :
-    AxGood m ∧ AxInside m n ∧ m = ⟨0, 1, n, n⟩ := by
+    AxGood m ∧ AxInside m n ∧ m = ⟨0, 1, n, n, 0, 1⟩ := by
   simp only [axisOfSlice, getitemAxisNone, bind, Except.bind, pure, Except.pure, Except.ok.injEq] at h
   subst h
-  refine ⟨⟨by simp, hn, rfl⟩, ?_, rfl⟩
+  refine ⟨⟨by simp, hn, rfl, ⟨rfl, rfl⟩⟩, ?_, rfl⟩
   intro k hk0 hk
   simp only at hk ⊢
   omega
@@ -249,12 +252,12 @@ theorem szOk_alen : SzOk AxMap.alen := fun _ h => h
 
 theorem remap_pos_shape (sz : AxMap → Int) (hsz : SzOk sz) (g : Geom) {m0 m1 m2 : AxMap}
     (h0 : AxGood m0) (h1 : AxGood m1) (h2 : AxGood m2) : (g.remap sz m0 m1 m2).Pos := by
-  simp only [Geom.Pos, Geom.remap, hsz m0 h0.2.2, hsz m1 h1.2.2, hsz m2 h2.2.2]
+  simp only [Geom.Pos, Geom.remap, hsz m0 h0.2.2.1, hsz m1 h1.2.2.1, hsz m2 h2.2.2.1]
   exact ⟨by have := h0.2.1; omega, by have := h1.2.1; omega, by have := h2.2.1; omega⟩
 
 theorem remap_sz_eq (sz : AxMap → Int) (hsz : SzOk sz) (g : Geom) {m0 m1 m2 : AxMap}
     (h0 : AxGood m0) (h1 : AxGood m1) (h2 : AxGood m2) : g.remap sz m0 m1 m2 = g.remap AxMap.size m0 m1 m2 := by
-  simp only [Geom.remap, hsz m0 h0.2.2, hsz m1 h1.2.2, hsz m2 h2.2.2]
+  simp only [Geom.remap, hsz m0 h0.2.2.1, hsz m1 h1.2.2.1, hsz m2 h2.2.2.1]
 
 /-- what a correct step on a geometry guarantees -/
 structure StepOk (g : Geom) (r : GStep) : Prop where
@@ -270,7 +273,7 @@ theorem remap_noNew (sz : AxMap → Int) (hsz : SzOk sz) (g : Geom) {m0 m1 m2 : 
     NoNew g (g.remap sz m0 m1 m2, remapSrc m0 m1 m2) := by
   intro j hj
   rw [inRange_iff] at hj ⊢
-  simp only [Geom.remap, hsz m0 h0.1.2.2, hsz m1 h1.1.2.2, hsz m2 h2.1.2.2] at hj
+  simp only [Geom.remap, hsz m0 h0.1.2.2.1, hsz m1 h1.1.2.2.1, hsz m2 h2.1.2.2.1] at hj
   obtain ⟨⟨a0, a1⟩, ⟨b0, b1⟩, ⟨c0, c1⟩⟩ := hj
   exact ⟨h0.2 _ a0 a1, h1.2 _ b0 b1, h2.2 _ c0 c1⟩
 
@@ -282,7 +285,7 @@ theorem getitemG_sound (sz : AxMap → Int) (hsz : SzOk sz) {g : Geom} {items : 
   simp only [pure, Except.pure, Except.ok.injEq] at h
   subst h
   obtain ⟨s0, s1, s2⟩ := getitemMaps_sound hp hm
-  refine ⟨⟨fun j => pos_remap sz g m0 m1 m2 j, fun ho => orth_remap sz g m0 m1 m2 ho s0.1.1 s1.1.1 s2.1.1,
+  refine ⟨⟨fun j => pos_remap sz g m0 m1 m2 s0.1.2.2.2 s1.1.2.2.2 s2.1.2.2.2 j, fun ho => orth_remap sz g m0 m1 m2 ho s0.1.1 s1.1.1 s2.1.1,
     remap_pos_shape sz hsz g s0.1 s1.1 s2.1⟩, remap_noNew sz hsz g s0 s1 s2, ?_⟩
   intro sz' hsz'
   rw [hm]
@@ -336,29 +339,40 @@ theorem fullPadWidth_nonneg {w : PadWidth} {full : FullPad} (h : fullPadWidth w 
     obtain ⟨⟨⟨⟨⟨a, b⟩, c⟩, d⟩, e⟩, f⟩ := hn
     exact ⟨a, b, c, d, e, f⟩
 
-theorem padAxis_good {n b a : Int} (hn : 0 < n) (hb : 0 ≤ b) (ha : 0 ≤ a) : AxGood (padAxis n b a) :=
-  ⟨by simp [padAxis], by simp only [padAxis]; omega, rfl⟩
+/-- T9e: origin offset and new size of a padded axis as the library computes them agree with what `numpy.pad` does -/
+theorem padAxis_ok {n b a : Int} {m : AxMap} (h : padAxis n b a = .ok m) : m = ⟨-b, 1, n + b + a, n + b + a, -b, 1⟩ := by
+  simp only [padAxis, padOriginOffset, padNewSize, bind, Except.bind, pure, Except.pure, Except.ok.injEq] at h
+  exact h.symm
 
-theorem padFullG_sound (sz : AxMap → Int) (hsz : SzOk sz) {g : Geom} {full : FullPad} (hp : g.Pos)
-    (hf : 0 ≤ full.1.1 ∧ 0 ≤ full.1.2 ∧ 0 ≤ full.2.1.1 ∧ 0 ≤ full.2.1.2 ∧ 0 ≤ full.2.2.1 ∧ 0 ≤ full.2.2.2) :
-    StepOk g (padFullG sz g full) ∧ ∀ sz', SzOk sz' → padFullG sz' g full = padFullG sz g full := by
+theorem padAxis_good {n b a : Int} {m : AxMap} (h : padAxis n b a = .ok m) (hn : 0 < n) (hb : 0 ≤ b) (ha : 0 ≤ a) : AxGood m := by
+  rw [padAxis_ok h]
+  exact ⟨by simp, by simp only; omega, rfl, ⟨rfl, rfl⟩⟩
+
+theorem padFullG_sound (sz : AxMap → Int) (hsz : SzOk sz) {g : Geom} {full : FullPad} {r : GStep} (hp : g.Pos)
+    (hf : 0 ≤ full.1.1 ∧ 0 ≤ full.1.2 ∧ 0 ≤ full.2.1.1 ∧ 0 ≤ full.2.1.2 ∧ 0 ≤ full.2.2.1 ∧ 0 ≤ full.2.2.2)
+    (h : padFullG sz g full = .ok r) :
+    StepOk g r ∧ ∀ sz', SzOk sz' → padFullG sz' g full = .ok r := by
   obtain ⟨f0, f1, f2, f3, f4, f5⟩ := hf
-  have g0 := padAxis_good hp.1 f0 f1
-  have g1 := padAxis_good hp.2.1 f2 f3
-  have g2 := padAxis_good hp.2.2 f4 f5
-  refine ⟨⟨fun j => pos_remap sz g _ _ _ j, fun ho => orth_remap sz g _ _ _ ho g0.1 g1.1 g2.1,
+  simp only [padFullG] at h ⊢
+  obtain ⟨m0, e0, h⟩ := bind_ok.mp h
+  obtain ⟨m1, e1, h⟩ := bind_ok.mp h
+  obtain ⟨m2, e2, h⟩ := bind_ok.mp h
+  simp only [pure, Except.pure, Except.ok.injEq] at h
+  subst h
+  have g0 := padAxis_good e0 hp.1 f0 f1
+  have g1 := padAxis_good e1 hp.2.1 f2 f3
+  have g2 := padAxis_good e2 hp.2.2 f4 f5
+  refine ⟨⟨fun j => pos_remap sz g _ _ _ g0.2.2.2 g1.2.2.2 g2.2.2.2 j, fun ho => orth_remap sz g _ _ _ ho g0.1 g1.1 g2.1,
     remap_pos_shape sz hsz g g0 g1 g2⟩, fun sz' hsz' => ?_⟩
-  simp only [padFullG, remap_sz_eq sz hsz g g0 g1 g2, remap_sz_eq sz' hsz' g g0 g1 g2]
+  simp only [e0, e1, e2, bind, Except.bind, pure, Except.pure, remap_sz_eq sz hsz g g0 g1 g2, remap_sz_eq sz' hsz' g g0 g1 g2]
 
 theorem padG_sound (sz : AxMap → Int) (hsz : SzOk sz) {g : Geom} {w : PadWidth} {r : GStep} (hp : g.Pos)
     (h : padG sz g w = .ok r) : StepOk g r ∧ ∀ sz', SzOk sz' → padG sz' g w = .ok r := by
   simp only [padG] at h ⊢
   obtain ⟨full, hf, h⟩ := bind_ok.mp h
-  simp only [pure, Except.pure, Except.ok.injEq] at h
-  subst h
-  obtain ⟨a, b⟩ := padFullG_sound sz hsz hp (fullPadWidth_nonneg hf)
+  obtain ⟨a, b⟩ := padFullG_sound sz hsz hp (fullPadWidth_nonneg hf) h
   refine ⟨a, fun sz' hsz' => ?_⟩
-  rw [hf]; simp only [bind, Except.bind, pure, Except.pure, b sz' hsz']
+  rw [hf]; exact b sz' hsz'
 
 theorem padToG_sound (sz : AxMap → Int) (hsz : SzOk sz) {g : Geom} {s : List Int} {r : GStep} (hp : g.Pos)
     (h : padToG sz g s = .ok r) : StepOk g r ∧ ∀ sz', SzOk sz' → padToG sz' g s = .ok r := by
@@ -909,7 +923,7 @@ theorem chanSrc_two (v : Vol) (a b : Nat) (hs : v.cshape = [a, b]) (k x y : Nat)
 
 /-- the slice `flip_spatial` uses on a flipped axis reads the axis backwards, completely -/
 theorem flip_axis_map (n : Int) (hn : 0 < n) :
-    axisOfSlice (some (some (-1), none, some (-1))) n = .ok ⟨n - 1, -1, n, n⟩ := by
+    axisOfSlice (some (some (-1), none, some (-1))) n = .ok ⟨n - 1, -1, n, n, n - 1, -1⟩ := by
   have h1 : sliceIndices (some (-1)) none (some (-1)) n = .ok (n - 1, -1, -1) := by
     simp only [sliceIndices]
     have : max (-1 + n) (-1) = n - 1 := by omega
@@ -929,7 +943,7 @@ theorem flip_axis_map (n : Int) (hn : 0 < n) :
   simp only [axisOfSlice, h1, bind, Except.bind, h2, pure, Except.pure, h3]
 
 theorem full_axis_map (n : Int) (hn : 0 < n) :
-    axisOfSlice (some (none, none, none)) n = .ok ⟨0, 1, n, n⟩ := by
+    axisOfSlice (some (none, none, none)) n = .ok ⟨0, 1, n, n, 0, 1⟩ := by
   have h1 : sliceIndices none none none n = .ok (0, n, 1) := by
     simp [sliceIndices]
   have h2 : getitemAxisItem 0 n 1 = .ok (0, 1, n) := by
@@ -942,7 +956,7 @@ theorem full_axis_map (n : Int) (hn : 0 < n) :
     simp [sliceLen, hn]
   simp only [axisOfSlice, h1, bind, Except.bind, h2, pure, Except.pure, h3]
 
-def flipMap (b : Bool) (n : Int) : AxMap := if b then ⟨n - 1, -1, n, n⟩ else ⟨0, 1, n, n⟩
+def flipMap (b : Bool) (n : Int) : AxMap := if b then ⟨n - 1, -1, n, n, n - 1, -1⟩ else ⟨0, 1, n, n, 0, 1⟩
 
 theorem flip_item_axis (b : Bool) (n : Int) (hn : 0 < n) :
     (do let s ← optItemSlice (some (if b then Item.slice (some (-1)) none (some (-1)) else Item.slice none none none)) n
@@ -1120,7 +1134,7 @@ theorem checkSlice_ok {a b : Option Int} {n w : Int} (h : checkSlice a b n = .ok
   cases a <;> cases b <;> simp only at h <;> grind
 
 theorem range_axis_map {n f e : Int} {m : AxMap} (h : axisOfItem (some (Item.slice (some f) (some e) none)) n = .ok m)
-    (hf : 0 ≤ f) (he : f < n → 0 ≤ e) : m = ⟨f, 1, e - f, e - f⟩ ∧ f < e ∧ e ≤ n := by
+    (hf : 0 ≤ f) (he : f < n → 0 ≤ e) : m = ⟨f, 1, e - f, e - f, f, 1⟩ ∧ f < e ∧ e ≤ n := by
   obtain ⟨s, hs, h⟩ := bind_ok.mp h
   simp only [optItemSlice, itemSlice] at hs
   obtain ⟨s', hs', hs⟩ := bind_ok.mp hs
@@ -1214,15 +1228,19 @@ theorem fullPadWidth_nested2 {f0 b0 f1 b1 f2 b2 : Int} {full : FullPad}
 
 theorem padG_nested2_shape (sz : AxMap → Int) (hsz : SzOk sz) {g : Geom} {f0 b0 f1 b1 f2 b2 : Int} {r : GStep}
     (h : padG sz g (.nested [[f0, b0], [f1, b1], [f2, b2]]) = .ok r) :
-    r.1.n0 = g.n0 + f0 + b0 ∧ r.1.n1 = g.n1 + f1 + b1 ∧ r.1.n2 = g.n2 + f2 + b2 ∧
-    r.2 = remapSrc (padAxis g.n0 f0 b0) (padAxis g.n1 f1 b1) (padAxis g.n2 f2 b2) := by
+    r.1.n0 = g.n0 + f0 + b0 ∧ r.1.n1 = g.n1 + f1 + b1 ∧ r.1.n2 = g.n2 + f2 + b2 := by
   simp only [padG] at h
   obtain ⟨full, hf, h⟩ := bind_ok.mp h
+  rw [fullPadWidth_nested2 hf] at h
+  simp only [padFullG] at h
+  obtain ⟨m0, e0, h⟩ := bind_ok.mp h
+  obtain ⟨m1, e1, h⟩ := bind_ok.mp h
+  obtain ⟨m2, e2, h⟩ := bind_ok.mp h
   simp only [pure, Except.pure, Except.ok.injEq] at h
   subst h
-  rw [fullPadWidth_nested2 hf]
-  simp only [padFullG, Geom.remap]
-  exact ⟨hsz _ rfl, hsz _ rfl, hsz _ rfl, trivial⟩
+  rw [padAxis_ok e0, padAxis_ok e1, padAxis_ok e2]
+  simp only [Geom.remap]
+  exact ⟨hsz _ rfl, hsz _ rfl, hsz _ rfl⟩
 
 /-- `pad_to_spatial_shape`: an accepted request yields exactly the requested shape -/
 theorem padToG_shape (sz : AxMap → Int) (hsz : SzOk sz) {g : Geom} {s : List Int} {r : GStep}
@@ -1239,7 +1257,7 @@ theorem padToG_shape (sz : AxMap → Int) (hsz : SzOk sz) {g : Geom} {s : List I
   obtain ⟨⟨f2, b2⟩, c2, hw⟩ := bind_ok.mp hw
   simp only [pure, Except.pure, Except.ok.injEq] at hw
   subst hw
-  obtain ⟨z0, z1, z2, _⟩ := padG_nested2_shape sz hsz h
+  obtain ⟨z0, z1, z2⟩ := padG_nested2_shape sz hsz h
   obtain ⟨_, _, r0⟩ := padToAxis_ok c0
   obtain ⟨_, _, r1⟩ := padToAxis_ok c1
   obtain ⟨_, _, r2⟩ := padToAxis_ok c2
@@ -1286,7 +1304,7 @@ theorem padOrCropG_shape (sz : AxMap → Int) (hsz : SzOk sz) {g : Geom} {s : Li
   have z0 : sz m0 = ce0 - cs0 := by rw [hsz m0 (by rw [x0]), x0]
   have z1 : sz m1 = ce1 - cs1 := by rw [hsz m1 (by rw [x1]), x1]
   have z2 : sz m2 = ce2 - cs2 := by rw [hsz m2 (by rw [x2]), x2]
-  obtain ⟨y0, y1, y2, _⟩ := padG_nested2_shape sz hsz h2
+  obtain ⟨y0, y1, y2⟩ := padG_nested2_shape sz hsz h2
   simp only [Geom.remap, z0, z1, z2] at y0 y1 y2
   rw [shape3_ok hs]
   simp only
@@ -1505,7 +1523,7 @@ theorem unit_item (f : Int) : getitemAxisItem f (f + 1) 1 = .ok (f, 1, 1) := by
 
 /-- an int index inside `-n .. n-1` selects exactly that plane (negative values count from the end) -/
 theorem int_axis_map {k n : Int} (hn : 0 < n) (hk : -n ≤ k ∧ k < n) :
-    axisOfItem (some (Item.int k)) n = .ok ⟨if k < 0 then k + n else k, 1, 1, 1⟩ := by
+    axisOfItem (some (Item.int k)) n = .ok ⟨if k < 0 then k + n else k, 1, 1, 1, if k < 0 then k + n else k, 1⟩ := by
   have hc : checkInt k n = .ok k := by
     unfold checkInt
     have h1 : ¬ k < -n := by omega
@@ -1527,7 +1545,8 @@ theorem int_axis_map {k n : Int} (hn : 0 < n) (hk : -n ≤ k ∧ k < n) :
     simp only [e1, if_true, Bool.false_eq_true, if_false, hs, this, hl']
     have e2 : (-1 : Int) < 0 := by decide
     simp only [e2, if_true]
-    congr 2; ring
+    have e3 : (-1 + n : Int) = n - 1 := by ring
+    rw [e3]
   · by_cases hneg : k < 0
     · have hs : sliceIndices (some k) (some (k + 1)) none n = .ok (k + n, k + n + 1, 1) := by
         simp only [sliceIndices]
@@ -1574,7 +1593,7 @@ theorem down_item (k s : Int) (hk : 0 ≤ k) (hs : 0 < s) :
 
 /-- **negative step ending at index 0**: `v[k::-s]` (stop omitted) selects `k, k-s, …` down to the last index `≥ 0` -/
 theorem reverse_to_zero_axis {k s n : Int} (hk : 0 ≤ k ∧ k < n) (hs : 0 < s) :
-    axisOfItem (some (Item.slice (some k) none (some (-s)))) n = .ok ⟨k, -s, k / s + 1, k / s + 1⟩ := by
+    axisOfItem (some (Item.slice (some k) none (some (-s)))) n = .ok ⟨k, -s, k / s + 1, k / s + 1, k, -s⟩ := by
   have hc : checkSlice (some k) none n = .ok 0 := by
     unfold checkSlice
     have h1 : ¬ k < -n := by omega
@@ -1602,7 +1621,7 @@ theorem reverse_to_zero_axis {k s n : Int} (hk : 0 ≤ k ∧ k < n) (hs : 0 < s)
 
 /-- the same with the explicit stop `-n-1` (the only way to write "down to and including index 0" with a stop) -/
 theorem reverse_to_zero_axis_explicit {k s n : Int} (hk : 0 ≤ k ∧ k < n) (hs : 0 < s) :
-    axisOfItem (some (Item.slice (some k) (some (-n - 1)) (some (-s)))) n = .ok ⟨k, -s, k / s + 1, k / s + 1⟩ := by
+    axisOfItem (some (Item.slice (some k) (some (-n - 1)) (some (-s)))) n = .ok ⟨k, -s, k / s + 1, k / s + 1, k, -s⟩ := by
   have hc : checkSlice (some k) (some (-n - 1)) n = .ok 0 := by
     unfold checkSlice
     have h1 : ¬ k < -n := by omega
